@@ -16,6 +16,7 @@ import (
 	"github.com/lianxiangcloud/linkchain/consensus"
 	"github.com/lianxiangcloud/linkchain/libs/common"
 	cntypes "github.com/lianxiangcloud/linkchain/libs/cryptonote/types"
+	"github.com/lianxiangcloud/linkchain/libs/ser"
 	"github.com/lianxiangcloud/linkchain/mempool"
 	"github.com/lianxiangcloud/linkchain/state"
 	"github.com/lianxiangcloud/linkchain/types"
@@ -45,9 +46,20 @@ func TestKnownForeignPrefix(t *testing.T) {
 	_, err, pan := guarded(func() (reflect.Value, error) { return e.decode(in) })
 	if pan != nil {
 		vstat.Violation(t, P, kForeignPrefix, "DecodeBytesWithType(%x, &MempoolMessage) panics instead of returning an error: %v", in, pan)
-		return
+	} else {
+		t.Logf("binary: no panic any more (err=%v)", err)
 	}
-	t.Logf("no panic any more (err=%v)", err)
+	// the JSON decoder resolves the "type" name the same way (libs/ser/json-decode.go)
+	doc := []byte(`{"address":"","pub_key":{"type":"PrivKeyEd25519","value":"0x00"},"last_height":"0","last_round":"0","last_step":0,"priv_key":null}`)
+	_, err, pan = guarded(func() (reflect.Value, error) {
+		pv := &types.FilePV{}
+		return reflect.Value{}, ser.UnmarshalJSON(doc, &pv)
+	})
+	if pan != nil {
+		vstat.Violation(t, P, kForeignPrefix, "UnmarshalJSON(%s, &FilePV) panics instead of returning an error: %v", doc, pan)
+	} else {
+		t.Logf("json: no panic any more (err=%v)", err)
+	}
 }
 
 // A consensus message cut after its 7 prefix bytes (or anywhere later) decodes without error.
